@@ -119,8 +119,12 @@ func tupleOf(u *core.Unit, e ast.Expr, call *ast.CallExpr, idx int) bool {
 	return isT && te.Index == idx && ast.Unparen(te.X) == call
 }
 
-func c15IndexSafety(c *core.Ctx) {
-	const R = "C15.2"
+func c15IndexSafety(c *core.Ctx) { headerBytesComplete(c, "C15.2") }
+
+// headerBytesComplete (C15.2 = C13.3c = C14.2d = C02.8e): the header bytes a
+// frame is decoded from are all there — read(n) hands out exactly n bytes or an
+// error (bufio Peek(n); a short Read leaves stale bytes in the length field).
+func headerBytesComplete(c *core.Ctx, R string) {
 	c.Rule(R, "every index / BigEndian.Uint16 / Uint64 on the slice returned by c.read(n) is dominated by that call's err == nil edge and needs at most n bytes; c.read returns Peek(n)'s slice and maps io.EOF to errUnexpectedEOF")
 	adv := c.Fn(R, wtAdvance)
 	if adv == nil {
